@@ -339,7 +339,7 @@ def run_idlock(ctx):
         if ctx.tier == 'quick':
             full = [s for i, s in enumerate(full) if i % 4 == ctx.seed % 4]
         scheds += [(2, list(s)) for s in full]
-        for _ in range(ctx.n(100, 1500)):
+        for _ in range(ctx.n(60, 1500)):
             n = rng.randint(2, 6)
             scheds.append((n, [rng.randrange(n) for _ in range(rng.randint(0, n * n_act + 4))]))
     lines = []
@@ -938,7 +938,9 @@ def provider_oracle(ctx, rig, specs, script):
         r = resps[0][2]
         rw = [m[2] for m in reports]
         finals = {s for s in [r] + rw if s in FINALS}
-        ok = (r == 'Wait' and legal_word(collapse([r] + rw))) or (r in FINALS and (rw == [] or legal_word(collapse(rw + [r])) and rw == [r]))
+        # the report stream itself: nothing missing, nothing repeated, nothing after the final part
+        ok = (r == 'Wait' and len(rw) in (2, 3) and rw[-2] == 'Start' and rw[-1] in FINALS and (len(rw) == 2 or rw[0] == 'Wait')) \
+            or (r in FINALS and (rw == [] or rw == [r]))
         if not ok or len(finals) != 1:
             sig = 'invocation:illegal-state-word'
             if known and r in FINALS and rw and rw[-1] in FINALS and rw[-1] != r:
@@ -1489,7 +1491,7 @@ def run_consumer_exhaustive(ctx, model_cases):
                                     # parts processed exactly at the lock of call_operation: every count, for the small bursts
                                     locks = range(0, len(word) - pos + 2) if burst in (0, 1, maxlen - 1) else (0,)
                                     for lock in locks:
-                                        if ctx.tier == 'quick' and (n + ctx.seed) % 3 and burst not in (0, maxlen - 1, maxlen):
+                                        if ctx.tier == 'quick' and (n + ctx.seed) % 4 and (burst not in (0, maxlen - 1) or not fresh):
                                             n += 1
                                             continue
                                         n += 1
